@@ -36,6 +36,9 @@ def representatives(with_null=True):
         out.append(("Uint64(%d)" % x, (lambda x=x: fv("Uint64", x, "u64")), x))
     for x in (1, 2):
         out.append(("Float64(#%d)" % x, (lambda x=x: fv("Float64", x, "f64")), None))
+    # -0.0 and +0.0: equal under `==` / partial_cmp (same rank), distinguished only by f64::total_cmp
+    out.append(("Float64(-zero#0)", (lambda: A.Enum(FV, "Float64", [A.Sym("Float64:-0.0", rank=0, ty="f64", props={"negzero": True})])), None))
+    out.append(("Float64(+zero#0)", (lambda: A.Enum(FV, "Float64", [A.Sym("Float64:+0.0", rank=0, ty="f64", props={"negzero": False})])), None))
     for x in (1, 2):
         out.append(("String(#%d)" % x, (lambda x=x: fv("String", x, "str")), None))
     for x in (0, 1):
@@ -139,6 +142,13 @@ def _fv_intrinsics():
             return ordering(a.rank, b.rank)
         raise A.Unsupported("cmp of %r and %r" % (a, b))
 
+    def total_cmp(ip, n, args):
+        a, b = A.deref(args[0]), A.deref(args[1])
+        if isinstance(a, A.Sym) and isinstance(b, A.Sym) and a.ty == b.ty == "f64":
+            key = lambda s: (s.rank, 0 if s.props.get("negzero") else 1)      # IEEE total order: -0.0 < +0.0
+            return ordering(key(a), key(b))
+        raise A.Unsupported("total_cmp of %r and %r" % (a, b))
+
     def reverse(ip, n, args):
         o = A.deref(args[0])
         return A.Enum(ORDERING, {"Less": "Greater", "Greater": "Less", "Equal": "Equal"}[o.variant])
@@ -163,6 +173,7 @@ def _fv_intrinsics():
         "core::convert::TryInto::try_into": try_conv,
         "core::cmp::PartialOrd::partial_cmp": partial_cmp,
         "core::cmp::Ord::cmp": cmp,
+        "core::f64::<impl f64>::total_cmp": total_cmp,
         "core::cmp::Ordering::reverse": reverse,
         "core::cmp::Ordering::is_eq": is_eq,
         "core::mem::discriminant": discriminant,
